@@ -31,18 +31,6 @@ thread_local! {
     static STATE: RefCell<AnchorState> = RefCell::new(AnchorState::default());
 }
 
-pub(crate) fn reset() {
-    STATE.with(|state| {
-        let mut s = state.borrow_mut();
-        s.stack.clear();
-        s.store.rc.clear();
-        s.store.arc.clear();
-        s.store.rc_recursive.clear();
-        s.store.arc_recursive.clear();
-        s.in_progress.clear();
-    });
-}
-
 pub(crate) fn with_anchor_context<R>(
     kind: AnchorKind,
     anchor: Option<usize>,
@@ -244,15 +232,23 @@ pub(crate) fn get_arc_recursive<T: Any + Send + Sync>(id: usize) -> Result<Optio
     })
 }
 
+/// Run `f` with a fresh, empty anchor state for one document.
+///
+/// The state that was current before the call is put aside and restored afterwards (also on
+/// unwinding), so a document deserialized from inside a user `Deserialize` implementation
+/// neither sees nor clears the anchors of the document being deserialized around it.
 pub(crate) fn with_document_scope<R>(f: impl FnOnce() -> R) -> R {
-    reset();
-    struct ResetGuard;
-    impl Drop for ResetGuard {
+    let saved = STATE.with(|state| std::mem::take(&mut *state.borrow_mut()));
+    struct RestoreGuard(Option<AnchorState>);
+    impl Drop for RestoreGuard {
         fn drop(&mut self) {
-            reset();
+            let saved = self.0.take().unwrap_or_default();
+            // Swap first and drop the inner state outside of the borrow.
+            let inner = STATE.with(|state| std::mem::replace(&mut *state.borrow_mut(), saved));
+            drop(inner);
         }
     }
-    let guard = ResetGuard;
+    let guard = RestoreGuard(Some(saved));
     let result = f();
     drop(guard);
     result
